@@ -405,6 +405,18 @@ def _key_length_guard(model: Model, rep: Report) -> None:
     performed that check on the same handler."""
     from ..cfg import build_cfg
 
+    r7 = rep.rule("C13-R7", "GUARD", "choplist(n, seq) yields full groups of n only (a short tail is dropped): every `for a, b in choplist(2, ...)` / `for a, b, c in choplist(3, ...)` over document data relies on it to unpack", 1)
+    cl = model.func("pdfminer.utils.choplist")
+    ys = [n for n in walk_no_nested(cl.node) if isinstance(n, (ast.Yield, ast.YieldFrom))]
+    if not ys:
+        raise AnchorMissing("utils.choplist: no yield")
+    from ..util import guard_conjuncts
+
+    npar = cl.params[0]
+    for y in ys:
+        g7 = guard_conjuncts(cl, y)
+        full = any(x in g7 for x in (f"len(r)=={npar}", f"{npar}==len(r)")) and isinstance(y, ast.Yield) and y.value is not None and "".join(unparse(y.value).split()) == "tuple(r)"
+        r7.check(full, site(cl, y), cl.qualname, f"`{unparse(y)[:40]}` runs under len(r) == {npar}", why=f"conditions {sorted(g7)}: a group shorter than {npar} can be yielded, and the tuple-unpacking loops over choplist raise ValueError on a token list whose length is not a multiple of the group size")
     r6 = rep.rule("C13-R6", "GUARD", "the RC4 key length taken from /Length is checked to be at least one octet before a key of that length is used, on every way to its use", 2)
     H = "pdfminer.pdfdocument.PDFStandardSecurityHandler"
     guarded_funcs = set()
